@@ -1,6 +1,9 @@
 // h_world.cpp — line-protocol driver for the real trompeloeil (see DESIGN.md §2.2).
 // Reads one operation per line on stdin, prints one canonical answer line per operation.
 #include "hw.hpp"
+#include <cstdlib>
+#include <cstring>
+#include <exception>
 #include <iostream>
 #include <map>
 #include <sstream>
@@ -28,13 +31,23 @@ bool cond(Ctx const* c, int idx, Args a)
   }
 }
 
+// the std::exception a clause throws: for odd expectation ids it carries a nested exception that is not a std::exception
+// (std::throw_with_nested while an int is being handled) — whoever looks at it on the way (a tracer noting the exception)
+// must leave it as the exception the caller receives
+[[noreturn]] static void throw_std(int id)
+{
+  if (id % 2 == 0) throw std::runtime_error("std");
+  try { throw 7; } catch (...) { std::throw_with_nested(std::runtime_error("std")); }
+  std::abort();
+}
+
 void nested_call(int o, int f, long a0, long a1);   // defined below: a mock call made from inside a side effect
 
 void fx(Ctx const* c, int idx, Args)
 {
   ev("fx e" + std::to_string(c->id) + " " + std::to_string(idx));
   int k = c->fx.at(static_cast<size_t>(idx));
-  if (k == 1) throw std::runtime_error("std");
+  if (k == 1) throw_std(c->id);
   if (k == 2) throw 42;
   if (k == 3) {
     auto const& n = c->nest.at(static_cast<size_t>(idx));
@@ -48,7 +61,7 @@ int ret(Ctx const* c, Args a)
   switch (c->ret.kind) {
     case 1: return static_cast<int>(c->ret.v);
     case 2: return static_cast<int>(a.a[c->ret.v]);
-    case 3: throw std::runtime_error("std");
+    case 3: throw_std(c->id);
     case 4: throw 42;
     default: return 0;
   }
@@ -57,7 +70,7 @@ int ret(Ctx const* c, Args a)
 int thr(Ctx const* c)
 {
   ev("ret e" + std::to_string(c->id));
-  if (c->ret.kind == 3) throw std::runtime_error("std");
+  if (c->ret.kind == 3) throw_std(c->id);
   throw 42;
 }
 } // namespace hx
@@ -485,7 +498,7 @@ void do_call(std::vector<std::string> const& t)
     }
   }
   catch (Reported const&) { caught = "rep"; }
-  catch (std::exception const&) { caught = "std"; }
+  catch (std::exception const& x) { caught = std::strcmp(x.what(), "std") == 0 ? "std" : "wrongstd"; }
   catch (...) { caught = "other"; }
   if (caught) { finish_call_events(caught); res = caught; }
   ev("res " + res);
